@@ -3,6 +3,7 @@ package main
 // Site obligations (K2 guards), postconditions at returns, top-level function encoding.
 
 import (
+	"go/token"
 	"fmt"
 	"go/types"
 	"sort"
@@ -409,6 +410,40 @@ func (e *Enc) nilnessResult(fn *ssa.Function, results []TV) (T, bool) {
 	return T{}, false
 }
 
+// returnsGlobal: one of the returned operands is (a load of, possibly converted to an interface)
+// the package-level variable with the given name.
+func returnsGlobal(x *ssa.Return, name string) bool {
+	var isG func(v ssa.Value, depth int) bool
+	isG = func(v ssa.Value, depth int) bool {
+		if depth > 4 {
+			return false
+		}
+		switch y := v.(type) {
+		case *ssa.UnOp:
+			if g, ok := y.X.(*ssa.Global); ok && y.Op == token.MUL {
+				return g.Name() == lastName(name)
+			}
+		case *ssa.MakeInterface:
+			return isG(y.X, depth+1)
+		case *ssa.ChangeInterface:
+			return isG(y.X, depth+1)
+		case *ssa.Phi:
+			for _, ed := range y.Edges {
+				if isG(ed, depth+1) {
+					return true
+				}
+			}
+		}
+		return false
+	}
+	for _, r := range x.Results {
+		if isG(r, 0) {
+			return true
+		}
+	}
+	return false
+}
+
 func (e *Enc) atReturn(fr *Frame, x *ssa.Return, vs []Val) {
 	if e.fc == nil {
 		return
@@ -438,6 +473,11 @@ func (e *Enc) atReturn(fr *Frame, x *ssa.Return, vs []Val) {
 				continue
 			}
 			cond = And(cond, Not(isNil))
+		default:
+			// a package-level sentinel error: the return statements that return that variable
+			if !returnsGlobal(x, st.Target) {
+				continue
+			}
 		}
 		sctx := &ExprCtx{e: e, fr: fr, st: fr.curState, old: e.entry, results: results, resNames: resNames, block: fr.curB, idx: fr.curI, fc: e.fc, lenient: true}
 		e.siteHits[st]++
